@@ -335,3 +335,46 @@ func zzC12ToolLookup() {
 	vReach("end")
 }
 func zzFilterTools12(logger *slog.Logger, tools []*Tool) []*Tool { return tools }
+
+// zzC12Lookup: lookupArgument — the function both sides use to find the body value an Mcp-Param header stands for —
+// against plain navigation, on argument documents nested three deep in which every member may be present or absent and
+// an enclosing object may hold a member named like the leaf: the value found is the member at exactly that path, and
+// "not there" is reported when any step is missing (a value from an enclosing object is not a substitute).
+func zzC12Lookup() {
+	leafIn, midIn, sibIn := vBool("leafPresent"), vBool("middleObjectPresent"), vBool("enclosingObjectHasAMemberNamedLikeTheLeaf")
+	tLeaf, tSib := vJSON("leaf value"), vJSON("enclosing object's value")
+	inner := map[string]json.RawMessage{}
+	if leafIn {
+		inner["q"] = tLeaf
+	}
+	outer := map[string]json.RawMessage{"other": vJSON("x")}
+	if sibIn {
+		outer["q"] = tSib
+	}
+	if midIn {
+		outer["m"] = vJSON(inner)
+	}
+	args := map[string]json.RawMessage{"o": vJSON(outer)}
+	switch vChoice("path", 4) {
+	case 0:
+		got, ok := lookupArgument(args, []string{"o", "m", "q"})
+		vAssert(ok == (midIn && leafIn), "C12.lookup.found-iff-every-step-of-the-path-is-there")
+		if ok {
+			vAssert(string(got) == string(tLeaf), "C12.lookup.the-value-at-exactly-that-path")
+		}
+		vReach("depth3")
+	case 1:
+		got, ok := lookupArgument(args, []string{"o", "q"})
+		vAssert(ok == sibIn, "C12.lookup.found-iff-every-step-of-the-path-is-there")
+		if ok {
+			vAssert(string(got) == string(tSib), "C12.lookup.the-value-at-exactly-that-path")
+		}
+	case 2:
+		_, ok := lookupArgument(args, []string{"o", "m", "other"})
+		vAssert(!ok, "C12.lookup.found-iff-every-step-of-the-path-is-there")
+	case 3:
+		_, ok := lookupArgument(args, []string{"absent", "q"})
+		vAssert(!ok, "C12.lookup.found-iff-every-step-of-the-path-is-there")
+	}
+	vReach("end")
+}
